@@ -31,6 +31,9 @@ type pgpIdentity struct {
 	flags            int
 	sigCreated       uint32
 	lifetime         int64
+	// second: a further, newer self-signature after the first one (what gpg writes when expiry or preferences are changed);
+	// RFC 4880 5.2.3.3: the most recent self-signature is the one to use
+	second *pgpIdentity
 }
 
 type pgpSubkey struct {
@@ -44,6 +47,9 @@ type pgpBuilt struct {
 	binary  []byte
 	regions []pgpRegion
 	gt      []string
+	// alts[k]: region k belongs to a self-signature of an identity that carries another, untouched self-signature: the
+	// Usage / Created / Expires that other one stands for
+	alts map[int][]string
 }
 
 var algDisplay = map[byte]string{1: "RSA", 17: "DSA", 19: "ECDSA", 22: "EdDSA", 18: "ECDH", 16: "ElGamal"}
@@ -96,6 +102,7 @@ func keyGT(k *pgpKeyMat) []string {
 // its binding signature (with an embedded primary-key-binding signature when the subkey can sign).
 func buildPGP(primary *pgpKeyMat, ids []pgpIdentity, subs []pgpSubkey, unhashedIssuer bool) pgpBuilt {
 	var b pgpBuilt
+	b.alts = map[int][]string{}
 	add := func(tag byte, body []byte) int {
 		h := pgpHeader(tag, len(body))
 		off := len(b.binary) + len(h)
@@ -119,6 +126,36 @@ func buildPGP(primary *pgpKeyMat, ids []pgpIdentity, subs []pgpSubkey, unhashedI
 			pgpRegion{"hashed", fmt.Sprintf("id%d", i), so + sig.hashedOff[0], so + sig.hashedOff[1]},
 			pgpRegion{"prefix", fmt.Sprintf("id%d", i), so + sig.prefixOff, so + sig.prefixOff + 2})
 		b.regions = append(b.regions, mpiValueRegions(fmt.Sprintf("id%d", i), sig.body, sig.mpiOff, so)...)
+		if id.second != nil {
+			s2 := makeSig(primary, pgpSigSpec{sigType: 0x13, created: id.second.sigCreated, flags: id.second.flags, lifetime: id.second.lifetime, issuerID: kid, unhashedIssuer: unhashedIssuer},
+				append(frameKey(primary.body), frameUID(id.name)...))
+			so2 := add(2, s2.body)
+			expOf := func(l int64) string {
+				if l > 0 {
+					return dateUTC(int64(primary.created) + l)
+				}
+				return "never"
+			}
+			gtOf := func(x pgpIdentity) []string {
+				return []string{hxsOrDash(usageString(x.flags)), hxs(dateUTC(int64(x.sigCreated))), hxs(expOf(x.lifetime))}
+			}
+			// regions of the first signature so far: the other valid self-signature is the second one, and vice versa
+			for k := range b.regions {
+				if b.regions[k].owner == fmt.Sprintf("id%d", i) && b.regions[k].kind != "uid" {
+					b.alts[k] = gtOf(*id.second)
+				}
+			}
+			first := gtOf(id)
+			n0 := len(b.regions)
+			b.regions = append(b.regions, pgpRegion{"hashed", fmt.Sprintf("id%d", i), so2, so2 + s2.hashedOff[0]},
+				pgpRegion{"hashed", fmt.Sprintf("id%d", i), so2 + s2.hashedOff[0], so2 + s2.hashedOff[1]},
+				pgpRegion{"prefix", fmt.Sprintf("id%d", i), so2 + s2.prefixOff, so2 + s2.prefixOff + 2})
+			b.regions = append(b.regions, mpiValueRegions(fmt.Sprintf("id%d", i), s2.body, s2.mpiOff, so2)...)
+			for k := n0; k < len(b.regions); k++ {
+				b.alts[k] = first
+			}
+			id.flags, id.sigCreated, id.lifetime = id.second.flags, id.second.sigCreated, id.second.lifetime
+		}
 		if thirdPartyCerts != nil {
 			// a certification by someone else's key (type 0x10): says nothing about usage, creation or expiry of this key
 			tp := makeSig(thirdPartyCerts, pgpSigSpec{sigType: 0x10, created: id.sigCreated + 86400*400, flags: -1, lifetime: -1, issuerID: pgpKeyID(thirdPartyCerts.body)},
@@ -384,6 +421,10 @@ func genC11(tier string, r *rng) {
 		primary := f(1700000000)
 		ids := []pgpIdentity{{name: "Alice Example <alice@example.org>", flags: 3, sigCreated: 1700000100, lifetime: -1},
 			{name: "Bob <bob@example.com>", flags: 1, sigCreated: 1700000200, lifetime: 86400 * 365}}
+		if pi%2 == 0 {
+			// Bob's expiry was extended two days later: a second, newer self-signature follows the first
+			ids[1].second = &pgpIdentity{flags: 3, sigCreated: 1700000200 + 172800, lifetime: 86400 * 730}
+		}
 		signSub := fs[[]int{3, 6, 0, 4, 6, 3, 3}[pi]](1700000300)
 		encSub := newECDHKey(1700000400, pi%2 == 0, nil, r)
 		if pi == 1 {
@@ -392,7 +433,7 @@ func genC11(tier string, r *rng) {
 		b := buildPGP(primary, ids, []pgpSubkey{{key: signSub, flags: 2, sigCreated: 1700000500, lifetime: -1}, {key: encSub, flags: 0x0c, sigCreated: 1700000600, lifetime: 86400}}, pi%3 == 0)
 		// the unmutated key must list everything (C12 oracle)
 		emit("pgp", append([]string{hx(b.binary), "G"}, b.gt...)...)
-		for _, reg := range b.regions {
+		for ri, reg := range b.regions {
 			nbits := (reg.hi - reg.lo) * 8
 			step := 1
 			if tier != "thorough" {
@@ -416,6 +457,9 @@ func genC11(tier string, r *rng) {
 				}
 				args := append([]string{hx(m), "G"}, b.gt...)
 				args = append(args, "M", reg.owner, reg.kind, mutName)
+				if alt := b.alts[ri]; alt != nil {
+					args = append(append(args, "ALT"), alt...)
+				}
 				emit("pgp", args...)
 			}
 		}
